@@ -236,10 +236,10 @@ fn strategy(lo: usize, hi: usize) -> BoxedStrategy<Case> {
 pub fn run(g: &mut Global) {
     g.rule = "random: proptest (composite among BB, SLOW_STOCH, ATR, MACD, PPO, KC, CE, CCI; every parameter tuple from the period mixture up to 512; multipliers of any sign; scalar streams of any sign (positive for PPO/SLOW_STOCH) or valid bars with close independent of (high+low)/2). Oracle: beside each composite the harness drives separately constructed public parts (SMA, SD, MAD, EMA, FAST_STOCH, TRUE_RANGE, ATR, MIN, MAX) fed the same stream and combines them as documented; agreement within tau(t)*M (x max(1,|multiplier|) for KC/CE levels, variance scale for the Bollinger half-width, tau*c/0.015 for CCI where c <= 1e6). Non-trivial = stream longer than n+2, bars with close != (high+low)/2 for the bar composites, parameter tuple not all equal; distinct by hash of (kind, parameters, path, inputs).".into();
     g.assumptions = vec!["the parts are the real public indicators of ta; a defect shared by a composite and its part is invisible here and is the business of C01-C03".into()];
-    g.random("random", g.tier.pick(250000, 4000000), &|| strategy(1, 2000), &check);
+    g.random("random", g.tier.pick(700000, 4000000), &|| strategy(1, 2000), &check);
     // identity events (tele.rs): at one or two steps the instance is replaced by its clone, by a used instance
     // (same or longer periods) that clone_from()s it, or by its serde round trip; nothing may change
-    g.random("events", g.tier.pick(100000, 800000), &|| crate::tele::wrap_resets(strategy(1, 600)), &|t: &crate::tele::TCase<Case>, ctx: &mut Ctx| crate::tele::check_wrapped(t, ctx, if t.case.scalar { t.case.xs.len() } else { t.case.bars.len() }, t.case.cfg.n(), check));
+    g.random("events", g.tier.pick(300000, 800000), &|| crate::tele::wrap_resets(strategy(1, 600)), &|t: &crate::tele::TCase<Case>, ctx: &mut Ctx| crate::tele::check_wrapped(t, ctx, if t.case.scalar { t.case.xs.len() } else { t.case.bars.len() }, t.case.cfg.n(), check));
     if g.tier == Tier::Thorough {
         g.random("long", 800, &|| strategy(4000, 10000), &check);
     }
